@@ -127,11 +127,11 @@ void Flow::advance_sequence(uint32_t seq) {
 }
 
 void Flow::update_state(const TCP& tcp) {
-    if (tcp.has_flags(TCP::FIN)) {
-        state_ = FIN_SENT;
-    }
-    else if (tcp.has_flags(TCP::RST)) {
+    if (tcp.has_flags(TCP::RST)) {
         state_ = RST_SENT;
+    }
+    else if (tcp.has_flags(TCP::FIN)) {
+        state_ = FIN_SENT;
     }
     else if (state_ == SYN_SENT && tcp.has_flags(TCP::ACK)) {
         #ifdef TINS_HAVE_ACK_TRACKER
